@@ -14,6 +14,10 @@ CLAIMED = {
             "Theorems (Properties_C06.v): for every flag value, registry and validly registered checker the CLI filter, its twin and the analyzer filter equal the documented sentence (enable-all or name or tag, and not disabled by name or tag); the default sets of CLI, analyzer and docs marks equal 'no opt-in tag' and are re-proved over the registry regenerated from the source on every run; constructors run for exactly the selected checkers and an empty selection is an error. Tie: both CLI mains (bridge tests) and the analyzer hook are run on the same configurations as the model (all key lists of length <= 1, sampled longer ones) and the outputs are compared inside Coq by vm_compute; an independent Go oracle re-checks the sentence on every configuration and end-to-end on the built binaries.",
             "Trusted: Coq kernel + vm_compute; translator for gen/Registry.v; the bridge/hook code; flag package parsing is not modelled; TrimSpace modelled for ASCII only.",
             "§5 C06"),
+    "C16": ("Coq theorems over a transliterated model of shortenLocation / file filters / print loop + differential correspondence (bridge and end-to-end binaries) + known-findings for isGenerated",
+            "Theorems (Properties_C16.v): for EVERY working directory, GOPATH, GOROOT and absolute location the printed (shortened) location expands back to the original (C16_shorten_resolves; the pre-fix routine is refuted by C16_shorten_substring_refuted); run's exit status is the configured code iff at least one line is printed and the lines are exactly the warnings of the files passing the two filters, each once (C16_run_spec, C16_filter_spec); a standard marker in the first comment group is detected (partial), and the full 'skipped iff generated' statement is refuted in both directions (two recorded findings). Tie: 6000 path layouts (nesting, one path inside another) through both mains' shortenLocation and the model; header comments through isGenerated and the model; synthetic workspaces run with both binaries under flag combinations, stderr lines and exit status compared in Coq with the model's run on warnings computed in-process through the public API. Oracle: every printed location must resolve to an existing file and line:column; exit status vs lines; test/generated filters; no file silently skipped.",
+            "Trusted: Coq kernel + vm_compute; bridge tests; CommentGroup.Text() and go/packages loading are inputs, not modelled; loader order abstracted by sorting; Windows separators and Getwd failure not covered.",
+            "§5 C16"),
 }
 
 NOT_APPLICABLE = {}
